@@ -6,6 +6,44 @@ import re
 HERE = os.path.dirname(os.path.dirname(os.path.abspath(__file__)))
 
 AS_BUILT = {
+"C04": """Fixed in /repo `2f3b640`+`732256b` (an undecodable `_torrentmeta` is reported as not-exist), `656172c` (a status vector
+of the wrong length is reset) and `a502f20` (CreateTorrent uses SetMetadata). Shared `Util/FS.lean` (abstract file system,
+`applyPrefix`, removal `Order`) and `harness/tools/crash_strace.py` (phase A: the test binary under strace between
+`/VERIF_MARK` markers records the real syscall plan of every operation; phase B: every prefix of the **observed** plans —
+not the model's — is materialised and the real `NewCADownloadStore` + `CreateTorrent` + finishing the pieces run on it).
+`Spec/C04.lean`: `invariant_after_every_history`, `crash_safe` (every blob, piece length, history incl. wrong payloads, crash
+point, removal order, sidecar copy order; under checksum separation), `restart_creates`, `finish_completes`. Cache/download
+eviction is outside the modelled history (audit I shows a two-crash-with-eviction history that breaks it; round 2).""",
+"C05": """The planned defect (empty `_torrentmeta` ⇒ 500 for ever) is repaired by the C04 commits `2f3b640`/`732256b`; re-verified
+on the tree before them. `Model/OriginCrash.lean` (upload start/write/commit, persist flag, Generate,
+WriteBlobToCacheWithMetaInfo via disk or memory+drain, NewCAStore with the upload wipe; digest, generator and decoder are
+parameters). `Spec/C05.lean`: `served_blob_hashes_to_name`, `metainfo_absent_or_valid`, `refresh_regenerates(_live)`,
+`dangling_not_served`. Two harness entries: `oc` (store level, 2918 crash points quick) and `ocs` (a real blobserver with
+Refresher on enumerated crash trees). Interpretation as planned: a listed name is readable with matching hash or not
+readable and re-creatable.""",
+"C06": """Fixed in /repo `2b7266a` (the constructor removes blob directories it cannot reboot) and `96dbfa5` (an unparsable `_size`
+is treated as missing). `Spec/C06.lean`, over both RebootIncompleteBlobs settings, sharded/unsharded, every history, every
+crash point of every operation **and of the constructor**, every removal order: `reopen_succeeds`, `complete_blobs_survive`,
+`nothing_incomplete_reported_complete`, `incomplete_restored_or_dropped`, `nothing_resurrected`, `crash_inside_constructor`,
+`recreate_afterwards`; hypothesis `rebootSize ≤ capacity` is stated, not derived. 5629 crash points quick.""",
+"C07": """Holds after /repo `76e9c07` (overflow-safe capacity comparison; the wrap was fixed rather than recorded). Shared
+`Model/BlobStore.lean`. `Spec/C07.lean` (20 obligations): `size_is_sum`, `admission_exact`, `queue_is_evictable`,
+`queue_is_lru` (ghost last-use trace), `evicts_front_only`, `evicts_minimally`, `evicts_only_evictable`, `scope_filter`,
+`getMd_returns_last_set`, `markComplete_metadata`, `clean_respects_ban`, `clean_reaches_target`, `no_panic`,
+`legacy_admits_wrap`.""",
+"C08": """Holds after /repo `a8f8d23` (same wrap in the memory store, where `make()` then panicked). `Spec/C08.lean`:
+`mem_store_is_lru_model`, `stale_handle_fails`, `stale_forever`, `incarnations_unique`, `bytes_change_only_by_own_writes`,
+`handle_read_own_or_evicted`, over an interleaving system with an explicit `evict` action. The quick tier has a bounded
+stress (growing WriteAt racing evicting Create/Delete; afterwards every stale handle must report evicted) added after
+seeded change C08-1 was missed.""",
+"C09": """Two races fixed (/repo `8791702`: abort check and disk.Create under the flusher lock; `c6f8fd6`: unban only while no
+new dirty entry exists, re-ban on new dirty metadata), hook commit `607ef70` (three scheduling points behind tag
+`verif`), and **one known finding** `recreate-during-flush` (flusher entries and queue are keyed by key, not by
+incarnation; repairing it needs incarnation identities throughout). `Spec/C09.lean`: `deleted_never_resurfaces`,
+`dirty_is_banned`, `tiers_stay_lru_models` for all schedules and any number of workers; `tiered_safe_target`,
+`not_tiered_safe` (witness schedule), `tiered_safe_partial(_prefix)` (no Create while the key is queued or in flight).
+Harness: a step controller parks the worker at nine scheduling points; six interleaving scripts enumerated (sampled
+above a cap); client operations are atomic with respect to worker micro-steps; one worker is driven.""",
 "C01": """Fixed in /repo `8124762` (verify the write-through buffer's digest before `memCache.Add`); the defect was first
 reproduced by the harness (`mismatch-write-accepted`, `served-wrong-bytes`; corpus `fixed-mem-unverified.ops`). Model
 `Model/CAStoreMem.lean` + `MemCache` + `OriginBlob` (HTTP operations as compositions of store operations); `H`, `crc` are
